@@ -202,7 +202,10 @@ func extractTarDirectory(dirPath, dirName string, r io.Reader, buf []byte, prese
 					// current directory of the process
 					target = filepath.Join(filepath.Dir(filePath), target)
 				}
-				err = os.Link(target, filePath)
+				// link the cleaned path, which is the one that was validated: an
+				// uncleaned name may resolve differently through a symbolic
+				// link created by an earlier entry
+				err = os.Link(filepath.Clean(target), filePath)
 			}
 		case tar.TypeSymlink:
 			var target string
